@@ -28,6 +28,8 @@ def _run_job(args):
 
         def h(sx):
             return fn(sx, **case)
+        from . import core as _core
+        _core.Ctx.LOGIC[0] = opts.get('logic')
         st = engine.explore(h, tier=tier, timeout_ms=opts.get('timeout_ms', 30000),
                             max_paths=opts.get('max_paths', 20000), budget_s=opts.get('budget_s', 900),
                             twin=opts.get('twin', 1))
